@@ -349,6 +349,9 @@ def _sanity(unit, job, can, obl, fn):
         raise Undecided("unit %s: zero obligations generated" % name)
     if not can:
         raise Undecided("unit %s: harness has no VACUITY_CANARY" % name)
+    for r in obl:
+        if 'undefined function should be unreachable' in r.get('description', '') and r['status'] != 'SUCCESS':
+            raise Undecided("unit %s: body-less function %s is called but not replaced by its contract" % (name, r['property'].split('.')[0]))
     for c in can:
         if c['status'] != 'FAILURE':
             raise Undecided("unit %s: vacuity canary %s is not reachable (contradictory precondition or "
